@@ -19,7 +19,9 @@ def main(src, bid, checks):
             shutil.copy(os.path.join(src, f), os.path.join(dst, f))
     shutil.rmtree(SCRATCH, ignore_errors=True)
     sh('mkdir -p /root/scratch && git -C /repo archive --format=tar --prefix=benignrepo/ HEAD | tar -x -C /root/scratch')
-    ap = sh('cd %s && patch -p1 < %s/patch.diff' % (SCRATCH, dst))
+    # (patch.head.diff: the same change ported by hand after a `fix:` commit rewrote a line it touches)
+    pf = 'patch.head.diff' if os.path.exists(os.path.join(dst, 'patch.head.diff')) else 'patch.diff'
+    ap = sh('cd %s && patch -p1 < %s/%s' % (SCRATCH, dst, pf))
     meta = {'id': bid, 'kind': 'property-preserving change written by an independent sub-agent', 'applies': ap.returncode == 0}
     if ap.returncode:
         meta['apply_error'] = (ap.stdout + ap.stderr)[-300:]
